@@ -8,6 +8,8 @@
 (*   [c |-> "inst", ex |-> f]       instance type, f : export name -> kind *)
 (*                                  (width and depth subtyping)            *)
 (*   [c |-> "type", id |-> t]       a defined (value) type; equality       *)
+(*   [c |-> "rtype", desc |-> d]    a type item (type export of an         *)
+(*                                  instance, type import); equality       *)
 (***************************************************************************)
 EXTENDS Naturals, FiniteSets, TLC
 
@@ -17,6 +19,7 @@ Sub(a, b) ==
   IF a.c # b.c THEN FALSE
   ELSE CASE a.c = "func" -> a.sig = b.sig
          [] a.c = "type" -> a.id = b.id
+         [] a.c = "rtype" -> a.desc = b.desc
          [] a.c = "inst" -> \A e \in DOMAIN b.ex :
                                e \in DOMAIN a.ex /\ Sub(a.ex[e], b.ex[e])
          [] OTHER -> FALSE
@@ -27,6 +30,7 @@ Mergeable(a, b) ==
   IF a.c # b.c THEN FALSE
   ELSE CASE a.c = "func" -> a.sig = b.sig
          [] a.c = "type" -> a.id = b.id
+         [] a.c = "rtype" -> a.desc = b.desc
          [] a.c = "inst" -> \A e \in DOMAIN a.ex \cap DOMAIN b.ex : Mergeable(a.ex[e], b.ex[e])
          [] OTHER -> FALSE
 
